@@ -1,6 +1,6 @@
 """C13: curve-preserving Boolean operations invent no geometry."""
 import math, random as _random
-import vlib, gen, ref
+import vlib, gen, ref, kernels
 from props import clipglue as cg
 from props.clipglue import P
 from props import C12 as c12
@@ -73,6 +73,8 @@ def correspond(ctx):
     if spot_bad:
         out['agree'] = min(out['agree'], out['n'] - 1)
         out['first_disagreement'] = {'clipper_hypothesis': spot_bad[:3], 'case': meta[spot_bad[0]['case']]}
+    # the curve-preserving mode of the glue as REGENERATED from utils/booleanoperationsmixin.py (round 6; Proofs/Bridge6.v): the kernels draw flat = False too
+    kernels.merge_cross_check(out, 'C13', ['Path_clip', 'Path_union', 'Path_intersection', 'Path_difference'], ctx.n(8, 100), rng, label='regenerated-kernels-round6')
     return out
 
 
